@@ -1,4 +1,5 @@
 import Utv.Model.C11
+import Utv.Lemmas.C11DF
 /-!
 C11 — exclude / preserve policies touch only the offending elements.
 
@@ -767,6 +768,309 @@ theorem C11_fields_ff_general (inv : Policy) (fields : List (Field κ α)) (a : 
   have h2 := ffAddition_general inv fields a data
   have h3 : (a.strictified inv).isIgnore = a.isIgnore := by cases a <;> rfl
   simp only [parseDataFF, h1, h2, h3]
+
+/-! ### fields + extra keys, data-first strategy -/
+
+theorem findField_strictified (inv : Policy) (k : κ) (fields : List (Field κ α)) :
+    findField k (fields.map (Field.strictified inv)) = (findField k fields).map (Field.strictified inv) := by
+  induction fields with
+  | nil => rfl
+  | cons f fs ih =>
+    have : (f.strictified inv).name = f.name := rfl
+    by_cases h : f.name = k <;> simp [findField, this, h, ih]
+
+omit [DecidableEq κ] in
+theorem parseValue_strictified_kept (inv : Policy) (f : Field κ α) (x : α)
+    (h : (Offending f.parse x && f.policy inv == .exclude && !f.required) = false) :
+    parseValue .throw (f.strictified inv) x = parseValue inv f x := by
+  rw [parseValue_strictified]
+  cases hp : f.parse x with
+  | some y => simp [strictifyParser_ok _ _ _ _ hp, parseValue, hp]
+  | none =>
+    have hb : Offending f.parse x = true := by simp [Offending, hp]
+    rw [C11_field_offending_cases inv f x hb]
+    cases hpol : f.policy inv with
+    | throw => simp [strictifyParser_throw_bad _ _ hp]
+    | preserve => simp [strictifyParser_preserve_bad _ _ hp]
+    | exclude =>
+      have hr : f.required = true := by
+        cases hr : f.required with
+        | true => rfl
+        | false => simp [hb, hpol, hr] at h
+      simp [strictifyParser_exclude_bad _ _ hp, hr]
+
+/-- the value of an extra key is removed by an `exclude` policy -/
+def addExcludedV (inv : Policy) (a : Addition α) (v : α) : Bool :=
+  match a with
+  | .typed p => inv == .exclude && Offending p v
+  | _ => false
+
+theorem parseAddition_strictified_kept (inv : Policy) (a : Addition α) (v : α)
+    (h : addExcludedV inv a v = false) :
+    parseAddition .throw (a.strictified inv) v = parseAddition inv a v := by
+  cases a with
+  | ignore => rfl
+  | forbid => rfl
+  | keep => rfl
+  | typed p =>
+    cases hp : p v with
+    | some y => simp [parseAddition, Addition.strictified, strictifyParser_ok _ _ _ _ hp, hp]
+    | none =>
+      cases inv with
+      | exclude => simp [addExcludedV, Offending, hp] at h
+      | preserve => simp [parseAddition, Addition.strictified, strictifyParser_preserve_bad _ _ hp, hp]
+      | throw => simp [parseAddition, Addition.strictified, strictifyParser_throw_bad _ _ hp, hp]
+
+theorem dataKept_field (inv : Policy) (fields : List (Field κ α)) (a : Addition α) (k : κ) (v : α) (f : Field κ α)
+    (hf : findField k fields = some f) :
+    dataKept inv fields a (k, v) = !(Offending f.parse v && f.policy inv == .exclude && !f.required) := by
+  simp [dataKept, fieldExcluded, additionExcluded, hf]
+
+theorem dataKept_extra (inv : Policy) (fields : List (Field κ α)) (a : Addition α) (k : κ) (v : α)
+    (hf : findField k fields = none) :
+    dataKept inv fields a (k, v) = !addExcludedV inv a v := by
+  cases a <;> simp [dataKept, fieldExcluded, additionExcluded, hf, addExcludedV]
+
+/-- a kept entry behaves identically in the strict run -/
+theorem entry_kept (inv : Policy) (fields : List (Field κ α)) (a : Addition α) (kv : κ × α)
+    (h : dataKept inv fields a kv = true) :
+    stepErr .throw (fields.map (Field.strictified inv)) (a.strictified inv) kv = stepErr inv fields a kv ∧
+    rEntry .throw (fields.map (Field.strictified inv)) kv = rEntry inv fields kv ∧
+    adEntry .throw (fields.map (Field.strictified inv)) (a.strictified inv) kv = adEntry inv fields a kv := by
+  obtain ⟨k, v⟩ := kv
+  simp only [stepErr, rEntry, adEntry, findField_strictified]
+  cases hf : findField k fields with
+  | none =>
+    rw [dataKept_extra inv fields a k v hf] at h
+    have : addExcludedV inv a v = false := by
+      cases hb : addExcludedV inv a v with
+      | false => rfl
+      | true => rw [hb] at h; simp at h
+    simp [parseAddition_strictified_kept inv a v this]
+  | some f =>
+    rw [dataKept_field inv fields a k v f hf] at h
+    have : (Offending f.parse v && f.policy inv == .exclude && !f.required) = false := by
+      cases hb : (Offending f.parse v && f.policy inv == .exclude && !f.required) with
+      | false => rfl
+      | true => rw [hb] at h; simp at h
+    simp [parseValue_strictified_kept inv f v this]
+
+/-- a removed entry raised nothing, added nothing, and contributed exactly the field's default -/
+theorem entry_dropped (inv : Policy) (fields : List (Field κ α)) (a : Addition α) (kv : κ × α)
+    (h : dataKept inv fields a kv = false) :
+    stepErr inv fields a kv = none ∧ adEntry inv fields a kv = none ∧
+    rEntry inv fields kv = (match findField kv.1 fields with | some f => f.default | none => none) ∧
+    (∀ f, findField kv.1 fields = some f → f.required = false) := by
+  obtain ⟨k, v⟩ := kv
+  simp only [stepErr, rEntry, adEntry]
+  cases hf : findField k fields with
+  | none =>
+    rw [dataKept_extra inv fields a k v hf] at h
+    cases a with
+    | typed p =>
+      have h2 : inv = .exclude ∧ p v = none := by
+        simpa [addExcludedV, Offending] using h
+      simp [parseAddition, h2.1, h2.2, addValueOf]
+    | ignore => simp [addExcludedV] at h
+    | forbid => simp [addExcludedV] at h
+    | keep => simp [addExcludedV] at h
+  | some f =>
+    rw [dataKept_field inv fields a k v f hf] at h
+    have h3 : (f.parse v = none ∧ f.policy inv = .exclude) ∧ f.required = false := by
+      simpa [Offending] using h
+    obtain ⟨⟨h3a, h3b⟩, h3c⟩ := h3
+    have e1 := C11_field_offending_cases inv f v (by simp [Offending, h3a])
+    rw [h3b] at e1
+    simp only [h3c] at e1
+    dsimp only
+    refine ⟨?_, rfl, ?_, ?_⟩
+    · rw [e1]; cases f.default <;> simp
+    · rw [e1]; cases f.default <;> simp [valueOf]
+    · intro g hg; cases hg; exact h3c
+
+theorem dfLoop_transfer (inv : Policy) (fields : List (Field κ α)) (a : Addition α) (data : List (κ × α)) :
+    (∀ e, dfLoop inv fields a data = .error e →
+      dfLoop .throw (fields.map (Field.strictified inv)) (a.strictified inv) (data.filter (dataKept inv fields a)) = .error e) ∧
+    (∀ p, dfLoop inv fields a data = .ok p →
+      ∃ p', dfLoop .throw (fields.map (Field.strictified inv)) (a.strictified inv) (data.filter (dataKept inv fields a)) = .ok p') := by
+  induction data with
+  | nil => simp [dfLoop]
+  | cons kv rest ih =>
+    rw [dfLoop_cons, List.filter_cons]
+    cases hk : dataKept inv fields a kv with
+    | true =>
+      obtain ⟨h1, h2, h3⟩ := entry_kept inv fields a kv hk
+      simp only [if_true]
+      rw [dfLoop_cons, h1, h2, h3]
+      cases stepErr inv fields a kv with
+      | some e => simp
+      | none =>
+        constructor
+        · intro e he
+          cases hr : dfLoop inv fields a rest with
+          | error e' =>
+            simp [hr, Except.map] at he
+            subst he
+            simp [ih.1 e' hr, Except.map]
+          | ok p => simp [hr, Except.map] at he
+        · intro p hp
+          cases hr : dfLoop inv fields a rest with
+          | error e' => simp [hr, Except.map] at hp
+          | ok p0 =>
+            obtain ⟨p', hp'⟩ := ih.2 p0 hr
+            exact ⟨_, by rw [hp']; rfl⟩
+    | false =>
+      obtain ⟨h1, _, _, _⟩ := entry_dropped inv fields a kv hk
+      simp only [Bool.false_eq_true, if_false, h1]
+      constructor
+      · intro e he
+        cases hr : dfLoop inv fields a rest with
+        | error e' =>
+          simp [hr, Except.map] at he
+          subst he
+          exact ih.1 e' hr
+        | ok p => simp [hr, Except.map] at he
+      · intro p hp
+        cases hr : dfLoop inv fields a rest with
+        | error e' => simp [hr, Except.map] at hp
+        | ok p0 => exact ih.2 p0 hr
+
+theorem lookup_filter_general (q : κ × α → Bool) (k : κ) (data : List (κ × α)) (hnd : (data.map (·.1)).Nodup) :
+    lookup k (data.filter q) =
+      (match lookup k data with | some v => if q (k, v) then some v else none | none => none) := by
+  cases hd : lookup k data with
+  | none => simp [lookup_filter_none q k data hd]
+  | some v =>
+    cases hq : q (k, v) with
+    | true => simp [lookup_filter_keep q k v data hd hq, hq]
+    | false => simp [lookup_filter_drop q k v data hnd hd hq, hq]
+
+omit [DecidableEq κ] in
+theorem nodup_filter_keys (q : κ × α → Bool) (data : List (κ × α)) (hnd : (data.map (·.1)).Nodup) :
+    ((data.filter q).map (·.1)).Nodup :=
+  List.Pairwise.sublist (List.Sublist.map _ List.filter_sublist) hnd
+
+/-- **fields + extra keys (data-first strategy), all policies and per-field `on_error` at once**: the
+same statement as `C11_fields_ff_general`.  Data-first inserts a substituted default where the offending
+value stood, the strict parse of the filtered data appends it in the fill loop, so the two results are
+compared as finite maps (`lookup`; the keys of these logs are distinct, so this is the `dict` they
+build); failures agree exactly. -/
+theorem C11_fields_df_general (inv : Policy) (fields : List (Field κ α)) (a : Addition α) (data : List (κ × α))
+    (hdata : (data.map (·.1)).Nodup) (hfields : (fields.map (·.name)).Nodup) :
+    (∀ e, parseDataDF inv fields a data = .error e →
+      parseDataDF .throw (fields.map (Field.strictified inv)) (a.strictified inv)
+        (data.filter (dataKept inv fields a)) = .error e) ∧
+    (∀ l, parseDataDF inv fields a data = .ok l →
+      ∃ l', parseDataDF .throw (fields.map (Field.strictified inv)) (a.strictified inv)
+        (data.filter (dataKept inv fields a)) = .ok l' ∧ ∀ k, lookup k l' = lookup k l) := by
+  have hfd := nodup_filter_keys (dataKept inv fields a) data hdata
+  have hsfn : (fields.map (Field.strictified inv)).map (·.name) = fields.map (·.name) := by
+    simp [Field.strictified]
+  obtain ⟨tE, tO⟩ := dfLoop_transfer inv fields a data
+  unfold parseDataDF
+  cases hL : dfLoop inv fields a data with
+  | error e =>
+    rw [tE e hL]
+    exact ⟨fun e' h => (by cases h; rfl), fun l h => (by cases h)⟩
+  | ok p =>
+    obtain ⟨r, ad⟩ := p
+    obtain ⟨⟨r', ad'⟩, hL'⟩ := tO _ hL
+    rw [hL']
+    have look := dfLoop_lookup inv fields a data r ad hdata hL
+    have look' := dfLoop_lookup .throw _ _ _ r' ad' hfd hL'
+    have flt := fun k => lookup_filter_general (dataKept inv fields a) k data hdata
+    -- lookups of the strict run in terms of the original data
+    have hr' : ∀ k, lookup k r' =
+        (match lookup k data with
+          | some v => if dataKept inv fields a (k, v) then rEntry inv fields (k, v) else none
+          | none => none) := by
+      intro k
+      rw [(look' k).1, flt k]
+      cases hd : lookup k data with
+      | none => rfl
+      | some v =>
+        cases hk : dataKept inv fields a (k, v) with
+        | true => simp [(entry_kept inv fields a (k, v) hk).2.1, hk]
+        | false => simp [hk]
+    have had' : ∀ k, lookup k ad' =
+        (match lookup k data with
+          | some v => if dataKept inv fields a (k, v) then adEntry inv fields a (k, v) else none
+          | none => none) := by
+      intro k
+      rw [(look' k).2, flt k]
+      cases hd : lookup k data with
+      | none => rfl
+      | some v =>
+        cases hk : dataKept inv fields a (k, v) with
+        | true => simp [(entry_kept inv fields a (k, v) hk).2.2, hk]
+        | false => simp [hk]
+    have h1 : ∀ k, k ∈ r'.map (·.1) → k ∈ r.map (·.1) := by
+      intro k
+      rw [mem_keys_iff_lookup, mem_keys_iff_lookup, hr' k, (look k).1]
+      cases lookup k data with
+      | none => simp
+      | some v => cases hk : dataKept inv fields a (k, v) <;> simp [hk]
+    have h2 : ∀ f ∈ fields, f.name ∈ r.map (·.1) → f.name ∉ r'.map (·.1) → f.required = false := by
+      intro f hf
+      have hff := findField_self_of_nodup fields hfields f hf
+      rw [mem_keys_iff_lookup, mem_keys_iff_lookup, hr' f.name, (look f.name).1]
+      cases hd : lookup f.name data with
+      | none => simp
+      | some v =>
+        cases hk : dataKept inv fields a (f.name, v) with
+        | true =>
+          simp only [hk, if_true]
+          intro h3 h4
+          simp [h4] at h3
+        | false =>
+          intro _ _
+          exact (entry_dropped inv fields a (f.name, v) hk).2.2.2 f hff
+    obtain ⟨fE, fO⟩ := dfFill_transfer (Field.strictified inv) (fun _ => rfl) (fun _ => rfl) (fun _ => rfl)
+      (r.map (·.1)) (r'.map (·.1)) h1 fields h2
+    simp only
+    cases hF : dfFill (r.map (·.1)) fields with
+    | error e =>
+      rw [fE e hF]
+      exact ⟨fun e' h => (by cases h; rfl), fun l h => (by cases h)⟩
+    | ok filled =>
+      obtain ⟨filled', hF'⟩ := fO filled hF
+      rw [hF']
+      refine ⟨fun e h => (by cases h), ?_⟩
+      intro l hl
+      cases hl
+      refine ⟨_, rfl, ?_⟩
+      intro k
+      have fl := dfFill_lookup (r.map (·.1)) fields filled hfields hF k
+      have fl' := dfFill_lookup (r'.map (·.1)) _ filled' (hsfn ▸ hfields) hF' k
+      have fl' : lookup k filled' =
+          (if k ∈ r'.map (·.1) then none else match findField k fields with | some f => f.default | none => none) := by
+        rw [fl', findField_strictified]
+        cases findField k fields <;> rfl
+      simp only [mem_keys_iff_lookup] at fl fl'
+      simp only [lookup_append, fl, fl', hr' k, had' k, (look k).1, (look k).2]
+      cases hd : lookup k data with
+      | none =>
+        simp
+        cases findField k fields with
+        | none => rfl
+        | some f => cases f.default <;> rfl
+      | some v =>
+        cases hk : dataKept inv fields a (k, v) with
+        | true =>
+          simp only [hk, if_true]
+          rcases Option.eq_none_or_eq_some (rEntry inv fields (k, v)) with h | ⟨y, h⟩
+          · simp only [h]
+            simp
+            cases findField k fields with
+            | none => rfl
+            | some f => cases f.default <;> rfl
+          · simp only [h]
+        | false =>
+          obtain ⟨_, e2, e3, _⟩ := entry_dropped inv fields a (k, v) hk
+          simp only [e2, e3, hk]
+          cases findField k fields with
+          | none => simp
+          | some f => cases hdf : f.default <;> simp [hdf]
 
 /-! ### "a required field is never silently excluded", at the level of the whole data class -/
 
